@@ -101,3 +101,18 @@ def C05(t0):
                 'mul_bigint: integers of 1, 4, 5, 6 limbs with concrete values (wiring only)'],
         trusted=[T_RUSTC, T_ARK + ": ark-ec's scalar multiplication / mul_bigint / default VariableBaseMSM for the inner points", 'each ladder step is the group law (C04); group axioms; r prime; "r times any element" is Lagrange on valid representatives'],
         assumptions=['the ladder is interpreted over the free cyclic group generated by its base point (an identity there holds in every group)'])
+
+def C06(t0):
+    from . import group, wiring, consts, curve
+    _warm()
+    jobs = [('ark constructors', group.check_constructors, ()), ('ark decode funnel', wiring.check_decode_funnel, ('ark',)), ('ark curve constants', consts.check_curve_constants, ('ark',)),
+            ('ark group order', consts.check_group_order, ('ark',)), ('ark decode algebra (on-curve of decoded points)', curve.check_decode_algebra, ('ark',)),
+            ('min decode algebra', curve.check_decode_algebra, ('min',)), ('min curve constants', consts.check_curve_constants, ('min',))]
+    obs = par.run_groups(jobs)
+    return finish('C06', obs, t0, level='proof',
+        functions=['AffineRepr::{zero, generator, from_random_bytes, clear_cofactor, mul_by_cofactor_to_group}', 'Group::generator', 'Default for Element/AffinePoint', 'Distribution<Element|AffinePoint>::sample',
+                   'CurveGroup::{normalize_batch, into_affine}', 'ScalarMul::batch_convert_to_mul_base', 'all deserialisers (decode funnel)', 'Element::{GENERATOR, IDENTITY}'],
+        bounds=['from_random_bytes: slice lengths 0..=80, bytes symbolic', 'samplers: rejection loop unrolled up to 2 rejections (the loop body is uniform)', 'batch conversions of 0, 1, 3 elements'],
+        trusted=[T_RUSTC, T_ARK, 'validity is preserved by the group law, negation, scalar action and affine/projective conversion; the image of Elligator lies in the group; decoded points are valid (on-curve part decided by certificate in C02)',
+                 'the Decaf theorem that on-curve points produced by decode are in the image 2E'],
+        assumptions=['"valid" is tracked as provenance: a result is valid iff every curve point it contains was produced by decode, a checked constant, Elligator or operations on valid points; arkworks raw-point constructors (from_random_bytes, UniformRand) are the only invalid sources'])
